@@ -296,6 +296,51 @@ theorem encode_time_is_the_clock (now rt : Int) :
   · intro h; simp [h, KOut.get, KOut.written, wrapU32]
   · intro h; simp [h]
 
+/-! ## `enc_authenticate`, `dec_authenticate`, `dec_timestamp` (C03, C06): identity from the kernel query, time from the clock -/
+
+/-- **The client identity of an encode is exactly what `auth_recv` (the kernel's peer-credential query) stored** - no other
+    value is written to `client_uid` / `client_gid` by this stage - and a failing query fails the request. -/
+theorem enc_identity_is_the_kernels (ku kg r : Int) :
+    (enc_authenticate ku kg r).count "auth_recv" = 1 ∧
+    (r = 0 → (enc_authenticate ku kg r).ret = 0 ∧ (enc_authenticate ku kg r).writes = [("c.msg.client_uid", ku), ("c.msg.client_gid", kg)]) ∧
+    (r ≠ 0 → (enc_authenticate ku kg r).ret = -1 ∧ (enc_authenticate ku kg r).err = 1) := by
+  unfold enc_authenticate
+  by_cases h : r = 0 <;> simp [h, KOut.count, KOut.err]
+
+/-- the same for a decode -/
+theorem dec_identity_is_the_kernels (ku kg r : Int) :
+    (dec_authenticate ku kg r).count "auth_recv" = 1 ∧
+    (r = 0 → (dec_authenticate ku kg r).ret = 0 ∧ (dec_authenticate ku kg r).writes = [("c.msg.client_uid", ku), ("c.msg.client_gid", kg)]) ∧
+    (r ≠ 0 → (dec_authenticate ku kg r).ret = -1 ∧ (dec_authenticate ku kg r).err = 1) := by
+  unfold dec_authenticate
+  by_cases h : r = 0 <;> simp [h, KOut.count, KOut.err]
+
+/-- **The decode time is the daemon's clock** (32-bit field), the encode-time field is cleared until the credential supplies it. -/
+theorem decode_time_is_the_clock (now rt : Int) :
+    (rt ≠ -1 → (dec_timestamp now rt).ret = 0 ∧ (dec_timestamp now rt).get "c.msg.time1" (-1) = now % 4294967296 ∧
+               (dec_timestamp now rt).get "c.msg.time0" (-1) = 0) ∧
+    (rt = -1 → (dec_timestamp now rt).ret = -1 ∧ (dec_timestamp now rt).writes = []) := by
+  unfold dec_timestamp
+  constructor
+  · intro h; simp [h, KOut.get, KOut.written, wrapU32]
+  · intro h; simp [h]
+
+/-- **Encoder and decoder derive the data-encryption key by the same call**: `mac_block` under the daemon's DEK key over the
+    credential's MAC, `mac_len` bytes - the first primitive call of a successful `enc_encrypt` and of a successful
+    `dec_decrypt` carry the same arguments. -/
+theorem encoder_and_decoder_derive_the_same_dek
+    (c mac il iml ml dl dp ip imp mr nd rb ri nu ru rc nfn rf rc2 : Int) (ms bs : Int → Int)
+    (mr' nd' rb' ri' nu' ru' rc' nfn' rf' rc2' il' ip' : Int)
+    (hil : 0 ≤ il ∧ il ≤ 2147480000) (hbs : bs c ≤ 64) (hn : 0 ≤ nu ∧ 0 ≤ nfn ∧ nu + nfn ≤ il + bs c)
+    (hil' : 0 ≤ il' ∧ il' ≤ 2147480000) (hn' : 0 ≤ nu' ∧ 0 ≤ nfn' ∧ nu' + nfn' ≤ il' + bs c) (hf' : 0 ≤ rf') (hc : c ≠ 0)
+    (he : (enc_encrypt c mac il iml ml dl dp ip imp mr nd rb ri nu ru rc nfn rf rc2 ms bs).ret = 0)
+    (hd : (dec_decrypt c mac il' ml dl dp ip' mr' nd' rb' ri' nu' ru' rc' nfn' rf' rc2' ms bs).ret = 0) :
+    (enc_encrypt c mac il iml ml dl dp ip imp mr nd rb ri nu ru rc nfn rf rc2 ms bs).events.head? =
+    (dec_decrypt c mac il' ml dl dp ip' mr' nd' rb' ri' nu' ru' rc' nfn' rf' rc2' ms bs).events.head? := by
+  rw [(encrypt_success_shape c mac il iml ml dl dp ip imp mr nd rb ri nu ru rc nfn rf rc2 ms bs hil hbs hn he hc).1,
+    (decrypt_success_shape c mac il' ml dl dp ip' mr' nd' rb' ri' nu' ru' rc' nfn' rf' rc2' ms bs hil' hbs hn' hf' hd hc).1]
+  rfl
+
 /-! ## `enc_armor` (C10 / C19): PREFIX ‖ base64 (OUTER ‖ MAC ‖ INNER) ‖ SUFFIX, inside its buffer -/
 
 /-- **The armor is the prefix, then the base64 stream fed the outer layer, the MAC and the inner layer - in that order, each whole,
